@@ -56,7 +56,8 @@ def key_sets(klepto):
 def keysets_for(backend):
     base = backend.split('+')[0]
     if base in ('file-json', 'dir-json'):
-        return ['str', 'alias-dash', 'dash', 'slash', 'prefixy', 'keymap-hash', 'keymap-str', 'long']   # JSON object keys are strings
+        # (JSON object keys are strings: the int key set demonstrates a recorded finding)
+        return ['str', 'alias-dash', 'dash', 'slash', 'prefixy', 'keymap-hash', 'keymap-str', 'long', 'int']
     if base == 'dir-py':
         # the import-based reader needs K_<key> to be a module name: identifier-like strings only
         return ['str', 'alias-dash', 'dash', 'prefixy-id', 'keymap-hash']
@@ -86,6 +87,8 @@ def enc_value(valset, v):
         return [v, {'a': 2.5}, (v, 'txt'), None]
     if valset == 'srcinf':
         return [v, float('inf')]
+    if valset == 'uni':           # text beyond ASCII (latin-1 and beyond), in every encoding that stores strings
+        return [v, 'caf\u00e9', '\u65e5\u672c']
     if valset == 'sql':           # str / int / float / bytes
         return ['txt%d' % v, v + 0.5, b'\x00\xff' + str(v).encode(), v][v % 4]
     if valset == 'func':          # pickled by dill: a function object (compared by what it computes)
@@ -137,7 +140,7 @@ def dec_value(valset, x, kid=0):
             cand = x
         elif valset == 'rich':
             cand = x['a'][0]
-        elif valset in ('json', 'src', 'srcinf'):
+        elif valset in ('json', 'src', 'srcinf', 'uni'):
             cand = x[0]
         elif valset == 'sql':
             if isinstance(x, str):
@@ -169,13 +172,13 @@ def dec_value(valset, x, kid=0):
 def valsets_for(backend):
     base = backend.split('+')[0]
     if base in ('dict', 'null'):
-        return ['int', 'rich', 'func', 'nonev']
+        return ['int', 'rich', 'func', 'nonev', 'uni']
     if base in ('file', 'dir', 'dir-fast', 'dir-compressed'):
-        return ['int', 'rich', 'func', 'mainfunc', 'nonev'] if base in ('file', 'dir') else ['int', 'rich', 'nonev']
+        return ['int', 'rich', 'func', 'mainfunc', 'nonev', 'uni'] if base in ('file', 'dir') else ['int', 'rich', 'nonev', 'uni']
     if base in ('file-json', 'dir-json'):
-        return ['int', 'json', 'nonev']
+        return ['int', 'json', 'nonev', 'uni']
     if base in ('file-py', 'dir-py'):
-        return ['int', 'src', 'srcinf', 'nonev']
+        return ['int', 'src', 'srcinf', 'nonev', 'uni']
     return ['int', 'sql', 'nonev']
 
 
